@@ -88,7 +88,12 @@ def lean_check(pid, spec, log, tier="quick"):
     bad = hygiene_grep()
     if bad:
         failures.append("forbidden constructs in lean sources: " + "; ".join(bad[:5]))
+    LAST_AXIOMS.clear()
+    LAST_AXIOMS.update({t: seen[t] for t in theorems if t in seen})
     return len(theorems), discharged, failures
+
+
+LAST_AXIOMS = {}    # theorem -> axioms reported by `#print axioms` in this run
 
 
 def write_replay(pid, kind, payload):
@@ -308,6 +313,7 @@ def write_evidence(pid, tier, seed, spec, t0, obligations, discharged, stats, vi
             "checker_cmd": "cd /verif/lean && lake build %s && lake env lean /verif/build/audit/%s.lean   (#print axioms of every listed theorem)%s" % (spec["module"], pid, "; lake env leanchecker <each property module>" if tier == "thorough" else ""),
             "trusted_base": TRUSTED_BASE + spec.get("trusted", []),
             "theorems": spec["theorems"],
+            "axioms": {t: LAST_AXIOMS.get(t) for t in spec["theorems"]},
             "statement": spec.get("statement", ""),
             "partial": spec.get("partial", ""),
             "evaluations": evals,
